@@ -482,6 +482,16 @@ func mixCase(hseed uint64) {
 	if flavour != "none" {
 		tc = &traceCache{inner: newCache(flavour)}
 		cache = tc
+		// a call that receives the token of another call's in-flight fetch: the model's
+		// answer AShare at this point of its script
+		tc.onShared = func(job int, scheme auth.Scheme, tok string) {
+			w.mu.Lock()
+			defer w.mu.Unlock()
+			if is, ok := w.tokens[tok]; ok && scheme == auth.SchemeBearer {
+				w.jobAnswers[job] = append(w.jobAnswers[job], fmt.Sprintf("S%d", is.serial))
+				run.Count("mixjob/shared-fetch-result")
+			}
+		}
 	}
 	client := &auth.Client{Client: &http.Client{Transport: w}, Cache: cache, Credential: w.credentialFunc(), ForceAttemptOAuth2: oauth2}
 	n := 4 + r.Intn(12)
@@ -606,8 +616,8 @@ func mixCase(hseed uint64) {
 		if rd == nil {
 			rd = &jobReads{scheme: "-"}
 		}
-		if rd.setCalls > 0 && !rd.fetched {
-			run.Count("mixjob/unjudged-shared-fetch") // it received another call's token: outside do_request_rd
+		if rd.setCalls > 0 && !rd.fetched && len(rd.sets) == 0 {
+			run.Count("mixjob/unjudged-shared-failure") // it received another call's fetch ERROR: not in the model
 			continue
 		}
 		o := 0
